@@ -139,8 +139,8 @@ def run(ctx):
                "|lat| <= 80 deg, 0 <= alt <= 20 km, |V_i| <= 300 m/s for the bounds of neglected terms")
     for wa in (True, False):
         _model(ctx, py, wa)
-    _forms(ctx, py)
-    _propagate(ctx, py)
+    ctx.guard(_forms, ctx, py)
+    ctx.guard(_propagate, ctx, py)
     from props import helpers
     helpers.util_products(ctx, py, "C04")
 
